@@ -295,7 +295,7 @@ def correspond(ck, traces, tag):
                                      % (t["scenario"], " ".join(mp["touches"])),
                                 key=t["scenario"].split("/")[0] + ":touch-after-return",
                                 replay=dict(harness="h_c11", scenario=t["scenario"], choices=t["choices"], trace=t["trace"],
-                                            opts=t.get("_opts", []))))
+                                            opts=t.get("_opts", []), yield_at=t.get("_ya", "before"))))
             continue
         n, one, timed = model_args(t["scenario"])
         form, _, _, l = parse_scenario(t["scenario"])
@@ -405,7 +405,7 @@ def harness_hits(ck, rows, out, err, rc, hname="h_c11", exe=None, args=()):
         scen = None
         if exe is not None:
             largs = [a for a in args]
-            for k in ("--mode", "--max", "--seed", "--pb"):
+            for k in ("--mode", "--max", "--seed", "--pb", "--yield-at"):
                 if k in largs:
                     i = largs.index(k)
                     del largs[i:i + 2]
@@ -420,19 +420,19 @@ def harness_hits(ck, rows, out, err, rc, hname="h_c11", exe=None, args=()):
                                                                                       (err or out)[-800:]),
                             key="crash" if not asan else "asan:" + asan.group(1),
                             replay=dict(harness=hname, scenario=scen, choices=(m.group(2).rstrip(",") if m else None),
-                                        opts=explore_opts(list(args)))))
+                                        opts=explore_opts(list(args)), yield_at=yield_at_of(list(args)))))
     for t in rows:
         if "trace" in t and t["fail"]:
             ck.hits.append(dict(what="%s: %s" % (t["scenario"], t["fail"]),
                                 key=t["scenario"].split("/")[0] + ":" + t["fail"][:40],
                                 replay=dict(harness=hname, scenario=t["scenario"], choices=t["choices"], trace=t["trace"],
-                                            opts=t.get("_opts", []))))
+                                            opts=t.get("_opts", []), yield_at=t.get("_ya", "before"))))
 
 
 def explore_opts(args):
     """The options that change how a choice vector is interpreted (needed to replay it)."""
     o = []
-    for k in ("--pb", "--weak", "--max-choices"):
+    for k in ("--pb", "--weak", "--max-choices", "--yield-at"):
         if k in args:
             o += [k, args[args.index(k) + 1]]
     return o
@@ -443,6 +443,30 @@ DEADLINES = ("-5", "15", "55", "1000005")
 # n = 2 scenarios small enough for an unbounded (exhaustive) DFS in the thorough tier (3.8 M and 12.3 M executions); the
 # other n = 2 scenarios have > 60 M interleavings and are explored with a preemption bound (stated in the evidence)
 N2_FULL = ("w/n2/d-5/l0", "wi/n2/d-5/l0", "wf/n2/d15/l0", "wfi/n2/d15/l0")
+# unbounded DFS with the switch after the operation: w/n2 only (wf/n2/d15/l0 has ~38 M executions in that mode, 10 min on its
+# own; it keeps its --yield-at after pass under the preemption bound)
+N2_FULL_AFTER = ("w/n2/d-5/l0",)
+
+
+def yield_at_of(args):
+    return args[args.index("--yield-at") + 1] if "--yield-at" in args else "before"
+
+
+def with_yield_passes(batches, tier):
+    """Every DFS list runs a second time with the fiber switch offered AFTER each wrapped operation (so a fiber can be
+    stopped between an operation and the plain code that follows it); random lists offer it at both places."""
+    out = []
+    for label, lists, tag in batches:
+        if lists and lists[0][1] == "random":
+            out.append((label + " (--yield-at both)", [a + ["--yield-at", "both"] for a in lists], tag))
+            continue
+        out.append((label, lists, tag))
+        after = [a + ["--yield-at", "after"] for a in lists]
+        if tag == "n2x":
+            # only the scenarios of N2_FULL_AFTER repeat their unbounded DFS in this mode
+            after = [a for a in after if a[a.index("--exact") + 1] in N2_FULL_AFTER]
+        out.append((label + ", switch after the operation (--yield-at after)", after, tag + "a"))
+    return out
 
 
 def plan(ck):
@@ -450,15 +474,15 @@ def plan(ck):
     seed = str(ck.seed)
     parts = ["/d%s/l%d" % (d, l) for d in DEADLINES for l in range(3)]
     if ck.tier == "quick":
-        return [
+        return with_yield_passes([
             ("n=1 all forms, exhaustive DFS (ticker scenarios only for wf/wu with later-kind 0)",
              [["--mode", "dfs", "--only", "/n1" + p, "--param", "light=1"] for p in parts], "n1"),
             ("n=2 all forms, DFS with preemption bound 2",
              [["--mode", "dfs", "--only", "/n2" + p, "--pb", "2", "--max", "100000"] for p in parts], "n2"),
             ("n=3 all forms, seeded random walks",
              [["--mode", "random", "--only", "/n3/", "--max", "100", "--seed", seed]], "n3"),
-        ]
-    return [
+        ], ck.tier)
+    return with_yield_passes([
         ("n=1 all forms, exhaustive DFS",
          [["--mode", "dfs", "--only", "/n1" + p, "--max", "3000000"] for p in parts], "n1"),
         ("n=2 all forms, DFS with preemption bound 3",
@@ -467,12 +491,12 @@ def plan(ck):
          [["--mode", "dfs", "--exact", x, "--max", "100000000"] for x in N2_FULL], "n2x"),
         ("n=3 all forms, seeded random walks",
          [["--mode", "random", "--only", "/n3" + p, "--max", "400", "--seed", seed] for p in parts], "n3"),
-    ]
+    ], ck.tier)
 
 
 def run_parallel(exe, arglists, timeout=1500, env=None, workers=None):
     import concurrent.futures
-    with concurrent.futures.ThreadPoolExecutor(max_workers=workers or max(2, min(len(arglists), vlib.NPROC // 2))) as ex:
+    with concurrent.futures.ThreadPoolExecutor(max_workers=workers or max(2, min(len(arglists), vlib.NPROC))) as ex:
         return list(ex.map(lambda a: (a,) + tuple(runner.run_harness(exe, a, timeout=timeout, env=env)), arglists))
 
 
@@ -492,7 +516,9 @@ def main(ck):
         "checks/c11.py trace-to-event mapping and harness/h_c11.cpp oracle",
         "YACLIB_VERIF hooks in the fault layer; FIBER scheduler, fiber mutex/condvar/atomics (C17-C19 are about those)",
     ]
+    t_start = time.time()
     ck.prove("props/Properties_C11.v", ["model/WaitEvObs.vo"])
+    phase = dict(prove_s=round(time.time() - t_start, 1))
     src = [os.path.join(vlib.VERIF, "harness", "h_c11.cpp")]
     exe, b = vlib.compile_harness("F", src, "c11")
     all_rows, heads = [], []
@@ -503,6 +529,7 @@ def main(ck):
         for args, rows, out, err, rc in run_parallel(exe, arglists):
             for r in rows:
                 r["_opts"] = explore_opts(args)
+                r["_ya"] = yield_at_of(args)
             harness_hits(ck, rows, out, err, rc, exe=exe, args=args)
             hs += [r for r in rows if "mode" in r]
             ts += [r for r in rows if "trace" in r]
@@ -524,7 +551,11 @@ def main(ck):
             seen.add(k)
             uniq_rows.append(t)
     all_rows = uniq_rows
+    phase["explore_s"] = round(time.time() - t_start - phase["prove_s"], 1)
+    t1 = time.time()
     validated, nontriv, bad, stats = correspond(ck, all_rows, "c11")
+    phase["replay_in_coq_s"] = round(time.time() - t1, 1)
+    ck.cov["phase_seconds"] = phase
     # ---- the same scenarios under AddressSanitizer (stack-use-after-return), thorough tier
     if ck.tier == "thorough":
         t0 = time.time()
@@ -532,12 +563,14 @@ def main(ck):
         asan_env = {"ASAN_OPTIONS": "detect_leaks=1:detect_stack_use_after_return=1:abort_on_error=0:exitcode=71"}
         fa_lists = [["--mode", "dfs", "--only", "/n1/d-5"],
                     ["--mode", "dfs", "--only", "/n2/d-5", "--pb", "2", "--max", "60000"],
-                    ["--mode", "dfs", "--only", "/n2/d15", "--pb", "2", "--max", "60000"],
-                    ["--mode", "random", "--max", "300", "--seed", str(ck.seed)]]
+                    ["--mode", "dfs", "--only", "/n2/d15", "--pb", "2", "--max", "60000"]]
+        fa_lists += [a + ["--yield-at", "after"] for a in fa_lists]
+        fa_lists += [["--mode", "random", "--max", "300", "--seed", str(ck.seed), "--yield-at", "both"]]
         rows, rc = [], 0
         for args, rws, out, err, rc1 in run_parallel(exa, fa_lists, env=asan_env):
             for r in rws:
                 r["_opts"] = explore_opts(args)
+                r["_ya"] = yield_at_of(args)
             harness_hits(ck, rws, out, err, rc1, "h_c11 (FA)", exe=exa, args=args)
             rows += rws
             rc = rc or rc1
@@ -552,7 +585,9 @@ def main(ck):
     ck.cov["rule"] = ("every scheduling decision of the FIBER backend (switch before each wrapped atomic/mutex/condvar operation, next "
                       "fiber, notified waiter) explored per batch as stated in 'batches'; forms w/wi/wf/wfi/wu/wui (unique: variadic, "
                       "iterator, WaitFor, WaitUntil), sw/swi (shared), mw (mixed), deadlines -5/15/55/1000005 virtual ns, 3 rotations of "
-                      "later consumers (Get&&, DetachInline, Wait+Get const&); traces deduplicated by their operation sequence; "
+                      "later consumers (Get&&, DetachInline, Wait+Get const&); every DFS batch is run with the fiber switch offered before each "
+                      "wrapped operation and again with it offered after each (--yield-at after), random walks with both; traces "
+                      "deduplicated by their operation sequence; "
                       "non-trivial = inside the call some producer operation lies strictly between the waiter's first and last operation")
     samples = []
     for pick in ("wf/n1/d-5/l0", "wu/n2/d15/l1", "w/n2/d-5/l0", "sw/n2/d-5/l0", "wfi/n3/d15/l2"):
@@ -575,8 +610,10 @@ def replay(ck, path):
         return 0
     cfg = "FA" if "(FA)" in (rp.get("harness") or "") else "F"
     exe, b = vlib.compile_harness(cfg, [os.path.join(vlib.VERIF, "harness", "h_c11.cpp")], "c11")
-    rows, out, err, rc = runner.run_harness(exe, ["--mode", "replay", "--exact", rp["scenario"], "--choices", rp["choices"]]
-                                            + list(rp.get("opts") or []))
+    opts = list(rp.get("opts") or [])
+    if "--yield-at" not in opts:
+        opts += ["--yield-at", rp.get("yield_at") or "before"]
+    rows, out, err, rc = runner.run_harness(exe, ["--mode", "replay", "--exact", rp["scenario"], "--choices", rp["choices"]] + opts)
     print(out)
     bad = any(r.get("fail") for r in rows if "trace" in r)
     for r in rows:
